@@ -28,7 +28,7 @@ CHECKS = {
         technique='source-to-coroutine transformation of the real LRI/LRU methods (yield before every shared-state access, model of the re-entrant '
                   'lock) executed under CrossHair/z3 with a SYMBOLIC schedule (first thread + switch points over numbered choice points); '
                   'linearizability oracle on the untransformed class; counterexample schedules replayed on real threads under sys.settrace',
-        text='Two logical threads each run one operation ([] =, [], del, pop, popitem, clear, setdefault, update, ==, get; every operation paired '
+        text='Two logical threads each run one operation - in a few obligations two in program order on one thread, and caches with an on_miss loader returning a fresh value per call - ([] =, [], del, pop, popitem, clear, setdefault, update, ==, get; every operation paired '
              'with [] = and with itself on LRU, [] = pairs also on LRI) on a shared cache of capacity 1..2 holding 0..2 entries, every key-equality '
              'pattern; for every schedule with at most 2 pre-emptions at any choice points the results, final contents, eviction order (probed by '
              'inserting fresh keys), len <= max_size and usability equal one sequential order. Each run first checks the transformed classes '
@@ -51,7 +51,7 @@ CHECKS = {
                   'configuration, umask, initial destination/part state, racing creator and body exception are solver-chosen',
         text='Every single injected OS failure (and pairs) at open/chmod/write/flush/fsync/close/rename/link, every combination of overwrite, '
              'rm_part_on_exc, text_mode (and, in dedicated obligations, overwrite_part x pre-existing part, file_perms x umask x destination mode, a '
-             'destination appearing at any tick): an incomplete save raises, leaves destination bytes and mode untouched, leaves no part file when '
+             'destination appearing at any tick; every permission word 0..0o7777 as the mode of the replaced file and as explicit file_perms): an incomplete save raises, leaves destination bytes and mode untouched, leaves no part file when '
              'rm_part_on_exc, never touches a foreign part file without overwrite_part, and an immediate retry succeeds; a completed save has the '
              'explicit / inherited / umask permissions. Bounded model checking.',
         note='Trusted: fakeos model, CrossHair/z3. Fault sites are the steps the statement lists; stat/lexists/unlink/fdopen are not fault sites.',
@@ -113,7 +113,7 @@ CHECKS = {
                   'size, removal positions (tombstone layouts), operation arguments and operand contents/kinds are solver-decided, path tree exhausted',
         text='From every pre-state of 0..5 items with up to 3 removals at arbitrary positions (by remove or pop(i); plus 8 items/4 removals and '
              '17 items under production compaction constants) each of 14 list-style operations and 22 set-style operations (0-2 operands, five '
-             'operand kinds, every subset of a small universe) is applied; afterwards iteration, len, in, s[i] for every valid index, EVERY '
+             'operand kinds, every subset of a small universe, sequence operands in either order and with repeated items) is applied; afterwards iteration, len, in, s[i] for every valid index, EVERY '
              'slice with bounds in -n-2..n+2/None and steps None,1,2,3, index, count, reversed and ==, followed by further appends/removals, are '
              'compared with a list; set results with Python sets plus the ordering rule. Bounded model checking.',
         note='Trusted: CrossHair/z3 exhaustion, list/set as oracle. Outside: >384 dead intervals, negative slice steps, iterators as operands, larger sets.',
@@ -205,7 +205,7 @@ CHECKS = {
         technique='bounded symbolic execution (CrossHair/z3) of the real ThresholdCounter against an exact Counter, key stream symbolic; '
                   'plus z3 bounded model checking of a transition relation generated from the AST of ThresholdCounter.add for the size bound',
         text='For six thresholds (floor(1/t) = 1..5) every equality pattern of a stream of up to 7 keys, delivered by add / update(list) / '
-             'update(iterator) / update(mapping) / update(**kw) / mixed, is explored to exhaustion; after every call total, the per-key '
+             'update(iterator) / update(mapping) / update(**kw) / mixed / mapping plus keywords in one call / one add followed by bulk counts, is explored to exhaustion; after every call total, the per-key '
              'never-over / bounded-under count law, presence of frequent keys, the size bound, common+uncommon == total and the '
              'items/keys/values/elements/most_common views are checked against the exact counts. Bounded model checking.',
         note='Trusted: CrossHair/z3, the exact Counter oracle. Outside: longer streams (for the E1 clauses), other thresholds.',
